@@ -266,7 +266,7 @@ class AdiabaticMD:
         :param this_electronics: ElectronicStates from current step
         """
         acceleration = self.force(this_electronics) / self.mass
-        self.last_position = self.position
+        self.last_position = np.copy(self.position)
         self.position += self.velocity * self.dt + 0.5 * acceleration * self.dt * self.dt
 
     def advance_velocity(self, last_electronics: ElectronicT, this_electronics: ElectronicT) -> None:
@@ -279,7 +279,7 @@ class AdiabaticMD:
         last_acceleration = self.force(last_electronics) / self.mass
         this_acceleration = self.force(this_electronics) / self.mass
 
-        self.last_velocity = self.velocity
+        self.last_velocity = np.copy(self.velocity)
         self.velocity += 0.5 * (last_acceleration + this_acceleration) * self.dt
 
     def simulate(self) -> 'Trace':
